@@ -1,6 +1,7 @@
 import GnoVerif.Model.C01
 import GnoVerif.Proofs.C01
 import GnoVerif.Proofs.C01Sort
+import GnoVerif.Proofs.C01Gas
 /-!
 # C01 — chain replay is deterministic across runs, restarts, caches and backends
 
@@ -191,6 +192,47 @@ theorem flush_enumeration_independent {σ : Type} (apply : σ → List Nat × Op
     flush apply parent d₁ = flush apply parent d₂ :=
   sort_fold_perm (fun x : List Nat × Option (List Nat) => x.1) pathLe pathLe_total pathLe_trans pathLe_antisymm
     apply parent hp hnd
+
+/-! ## Part 2b — gas charged inside a map range (FINDING) -/
+
+/-- THE FULL STATEMENT for the loop at realm.go:569 (and every loop of its shape): the gas
+the transaction reports does not depend on the order in which the map was enumerated.
+REFUTED by `gas_used_order_independent_counterexample`. -/
+def gas_used_order_independent_statement : Prop :=
+  ∀ (m : Meter) (c₁ c₂ : List Nat), m.consumed ≤ m.limit → c₁.Perm c₂ →
+    gasUsed (chargeAll m c₁) = gasUsed (chargeAll m c₂)
+
+/-- PARTIAL, under the exact guard "the loop stays within the gas limit": then the meter
+ends in the same state whatever the order. -/
+theorem gas_used_order_independent_partial (m : Meter) {c₁ c₂ : List Nat} (hp : c₁.Perm c₂)
+    (h : m.consumed + c₁.sum ≤ m.limit) : chargeAll m c₁ = chargeAll m c₂ := by
+  rw [chargeAll_in_budget c₁ m h, chargeAll_in_budget c₂ m (by rw [← hp.sum_nat]; exact h), hp.sum_nat]
+
+/-- WHETHER the transaction runs out of gas in the loop does not depend on the order… -/
+theorem out_of_gas_order_independent (m : Meter) {c₁ c₂ : List Nat} (h0 : m.consumed ≤ m.limit)
+    (hp : c₁.Perm c₂) : isOutOfGas (chargeAll m c₁) = isOutOfGas (chargeAll m c₂) := by
+  rw [isOutOfGas_iff c₁ m h0, isOutOfGas_iff c₂ m h0, hp.sum_nat]
+
+/-- …nor does what the BLOCK gas meter is charged (`GasConsumedToLimit`): the app hash
+is not affected by the finding. -/
+theorem block_gas_order_independent (m : Meter) {c₁ c₂ : List Nat} (h0 : m.consumed ≤ m.limit)
+    (hp : c₁.Perm c₂) : gasToLimit (chargeAll m c₁) = gasToLimit (chargeAll m c₂) := by
+  rw [gasToLimit_eq c₁ m h0, gasToLimit_eq c₂ m h0, hp.sum_nat]
+
+/-- COUNTEREXAMPLE, with the numbers measured on the real application (corpus/C01/02):
+3380663 gas consumed before the loop, the two realm records cost 25224 and 25190, gas
+limit 3400000: GasUsed is 3405887 in one order and 3405853 in the other. -/
+theorem gas_used_order_independent_counterexample : ¬ gas_used_order_independent_statement := by
+  intro h
+  have := h { limit := 3400000, consumed := 3380663 } [25224, 25190] [25190, 25224] (by decide)
+    (List.Perm.swap _ _ _)
+  revert this
+  decide
+
+example : gasUsed (chargeAll { limit := 3400000, consumed := 3380663 } [25224, 25190]) = 3405887 := by decide
+example : gasUsed (chargeAll { limit := 3400000, consumed := 3380663 } [25190, 25224]) = 3405853 := by decide
+/-- the guard of the partial theorem is satisfiable (the full-gas run of the witness) -/
+example : (3380663 : Nat) + [25224, 25190].sum ≤ 300000000 := by decide
 
 /-! ## Part 3 — the results hash -/
 
